@@ -491,7 +491,7 @@ func importExternalReferences(opts *FlattenOpts) (bool, error) {
 // This loops until the spec has no such pointer and all name conflicts have been reduced as much as possible.
 func stripPointersAndOAIGen(opts *FlattenOpts) error {
 	// name all JSON pointers to anonymous documents
-	if err := namePointers(opts); err != nil {
+	if err := namePointersUntilNoneLeft(opts); err != nil {
 		return err
 	}
 
@@ -510,7 +510,7 @@ func stripPointersAndOAIGen(opts *FlattenOpts) error {
 			}
 		}
 
-		if err := namePointers(opts); err != nil {
+		if err := namePointersUntilNoneLeft(opts); err != nil {
 			return err
 		}
 
@@ -522,6 +522,32 @@ func stripPointersAndOAIGen(opts *FlattenOpts) error {
 	}
 
 	return nil
+}
+
+// namePointersUntilNoneLeft repeats namePointers as long as it leaves anonymous pointers behind and makes progress.
+//
+// A pointer is replaced by a copy of its target: when that target holds a pointer of its own which is only replaced
+// later in the same pass (the deeper caller is handled first), the copy still holds it.
+func namePointersUntilNoneLeft(opts *FlattenOpts) error {
+	var previous string
+	for {
+		if err := namePointers(opts); err != nil {
+			return err
+		}
+
+		remaining := make([]string, 0, len(opts.Spec.references.allRefs))
+		for key, ref := range opts.Spec.references.allRefs {
+			if path.Dir(ref.String()) != definitionsPath {
+				remaining = append(remaining, key+"="+ref.String())
+			}
+		}
+		sort.Strings(remaining)
+		left := strings.Join(remaining, ", ")
+		if left == "" || left == previous {
+			return nil
+		}
+		previous = left
+	}
 }
 
 // stripOAIGen strips the spec from unnecessary OAIGen constructs, initially created to dedupe flattened definitions.
